@@ -1,7 +1,7 @@
 from common import COMMON_TB
 
 CONFIG = {
-    "lean_modules": ["SA.Props.C05", "SA.Props.C05Kinds", "SA.Props.C05Fault"],
+    "lean_modules": ["SA.Props.C05", "SA.Props.C05Kinds", "SA.Props.C05Fault", "SA.Props.C05ReqCert"],
     # a regression of the class "authentication remembered from an earlier connection" keeps state in the process: name
     # a failing input that fails when run alone in a fresh harness process (see check: confirm_replay)
     "confirm_replay": True,
@@ -67,8 +67,9 @@ CONFIG = {
     "components": [{"name": "tlscfg", "timeout": {"quick": 300, "thorough": 900}},
                    {"name": "authmatrix", "timeout": {"quick": 900, "thorough": 2400}},
                    {"name": "tlshist", "timeout": {"quick": 900, "thorough": 2400}},
-                   {"name": "cafault", "timeout": {"quick": 600, "thorough": 1200}}],
-    "rule": "cafault: {tcp (StartTLS), tcp+tls} x {client, server requiring client certificates} x option {ca, cert, key} given as a FILE x state of the file at the moment of the connection "
+                   {"name": "cafault", "timeout": {"quick": 600, "thorough": 1200}},
+                   {"name": "reqcert", "timeout": {"quick": 120, "thorough": 240}}],
+    "rule": "reqcert: a plain-carrier endpoint of a server with every combination of require-client-certificate x certificate x CA option and a client that never asks for StartTLS (so presents no certificate); cafault: {tcp (StartTLS), tcp+tls} x {client, server requiring client certificates} x option {ca, cert, key} given as a FILE x state of the file at the moment of the connection "
             "{ok, missing, dir, dangling, empty, garbage} x certificate class of the other end (server: good, sys, untrusted, wronghost, expired; client: none, good, sys, foreign, expired), client with MustSecure; "
             "monitor: with the configured CA file unusable nobody is authenticated against anything else. "
             "authmatrix server kinds (every tier): {pipe, tcp, tcp+tls, unix, unix+tls, udp, stdin, stdin+tls, ws, wss, dns} x requireClientCert=1 x client certificate {none, foreign CA, good} "
